@@ -198,9 +198,15 @@ def lits_for(rnd, signed, n, f, radix, count):
             intpart = abs(base) >> f if f < n else 0
             intpart += rnd.randrange(0, 3)
             si, _ = expand(intpart, 0, radix)
-            frac = rnd.choice((DIG[radix - 1] * rnd.randrange(1, 12), DIG[radix // 2] + DIG[rnd.randrange(1, radix)],
+            frac = rnd.choice((DIG[radix - 1] * rnd.randrange(1, 12), DIG[radix - 1] * rnd.choice((20, 27, 39, 40, 54, 55, 80)),
+                               DIG[radix // 2] + DIG[rnd.randrange(1, radix)],
                                DIG[radix // 2], DIG[radix - 1] + DIG[radix // 2] * 3, DIG[radix // 2] + "0" * 5 + "1"))
             emit(base < 0, si, frac)
+        elif c < 86:
+            nn = rnd.choice((3, 8, 19, 20, 27, 28, 39, 40, 54, 55, 80, 130))
+            ipv = rnd.choice((0, 0, 1, (hi >> f) if f < n else 0, rnd.randrange(0, 4)))
+            si, _ = expand(ipv, 0, radix)
+            emit(rnd.random() < 0.3, si, DIG[radix - 1] * nn + rnd.choice(("", DIG[rnd.randrange(radix)])))
         elif c < 88:
             # big integers: 2^n, 2^n +- 1, 1000-digit numbers, many leading zeros
             which = rnd.randrange(4)
